@@ -84,9 +84,13 @@ func (c *conn) Close() error {
 // 1. Atomically marks the connection as closed. If already closed, it returns immediately.
 // 2. Logs the termination event for debugging purposes.
 // 3. Cancels the server context with the provided error.
-// 4. Closes the transaction channel if it exists and hasn't already been closed.
+// 4. Detaches the transaction channel so that later senders do not pick it up.
 // 5. Closes the underlying stream associated with the connection.
 // It returns any error encountered while closing the stream.
+//
+// The transaction channel is deliberately not closed: a concurrent send() may already hold it
+// and sending on a closed channel panics. writeloop and send() both leave through the
+// cancelled context.
 func (c *conn) terminate(err error) error {
 	if c.closed.Swap(true) {
 		// Server is already closed. Nothing to do
@@ -94,9 +98,7 @@ func (c *conn) terminate(err error) error {
 	}
 	c.logger.Debug("Terminating connection")
 	c.cancel(err) // Cancel the server context
-	if tx := c.tx.Swap(chan txMsg(nil)); tx != nil && tx != chan txMsg(nil) {
-		close(tx.(chan txMsg))
-	}
+	c.tx.Swap(chan txMsg(nil))
 	return c.stream.Close() // Close the connection
 }
 
